@@ -481,3 +481,55 @@ func TestF26_UserDefinitionNamedLikeGenerated(t *testing.T) {
 		}
 	}
 }
+
+// F27 (C20): an empty tuple ({"type":"array","items":[]}) classified differently directly and through a $ref — the
+// flags tested lists of the schema against nil, which the JSON round trip of the $ref expansion does not preserve.
+func TestF27_EmptyTupleThroughRef(t *testing.T) {
+	sw := load(t, `{"swagger":"2.0","info":{"title":"t","version":"1"},"paths":{},
+ "definitions":{"e":{"type":"array","items":[]}}}`)
+	target := sw.Definitions["e"]
+	d, err := analysis.Schema(analysis.SchemaOpts{Schema: &target, Root: sw})
+	if err != nil {
+		t.Fatal(err)
+	}
+	r, err := analysis.Schema(analysis.SchemaOpts{Schema: spec.RefSchema("#/definitions/e"), Root: sw})
+	if err != nil {
+		t.Fatal(err)
+	}
+	if d.IsArray != r.IsArray || d.IsSimpleArray != r.IsSimpleArray || d.IsSimpleSchema != r.IsSimpleSchema || d.IsTuple != r.IsTuple {
+		t.Errorf("a $ref classifies differently from its target: direct array=%v simple=%v, via $ref array=%v simple=%v", d.IsArray, d.IsSimpleSchema, r.IsArray, r.IsSimpleSchema)
+	}
+}
+
+// F28 (C15): a $ref to a shared parameter that is itself a $ref came back as a nameless placeholder, without the
+// callback being called.
+func TestF28_ChainedParameterRef(t *testing.T) {
+	sw := load(t, `{"swagger":"2.0","info":{"title":"t","version":"1"},
+ "paths":{"/a":{"get":{"operationId":"getA","parameters":[{"$ref":"#/parameters/a"}],"responses":{"200":{"description":""}}}}},
+ "parameters":{"a":{"$ref":"#/parameters/b"},"b":{"name":"b","in":"query","type":"string"}}}`)
+	a := analysis.New(sw)
+	calls := 0
+	for k, p := range a.SafeParamsFor("get", "/a", func(spec.Parameter, error) bool { calls++; return true }) {
+		if p.Ref.String() != "" || p.Name == "" {
+			t.Errorf("unresolved placeholder under key %q ($ref %q), callback calls: %d", k, p.Ref.String(), calls)
+		}
+	}
+	if calls == 0 {
+		t.Errorf("the callback was not told about the parameter that cannot be resolved to a parameter object")
+	}
+}
+
+// F29 candidate (C15, known finding): parameters are merged under in#GoName(name): distinct names that mangle to the
+// same Go identifier override each other.
+func TestF29_OverrideKeyConflatesNames(t *testing.T) {
+	sw := load(t, `{"swagger":"2.0","info":{"title":"t","version":"1"},
+ "paths":{"/a":{
+    "parameters":[{"name":"foo-bar","in":"query","type":"string"}],
+    "get":{"operationId":"getA","parameters":[
+      {"name":"foo_bar","in":"query","type":"string"},
+      {"name":"foo bar","in":"query","type":"string"}
+    ],"responses":{"200":{"description":""}}}}}}`)
+	if got := len(analysis.New(sw).ParamsFor("get", "/a")); got != 3 {
+		t.Errorf("ParamsFor reports %d parameters for three declarations with three different names in one location", got)
+	}
+}
